@@ -150,6 +150,19 @@ def run_cases(ck: Check, n: int):
             res2 = locate(f2, threshold=t2, minimal_radius=-np.inf)
             if res2[0] != "ok" or emulsion_key(res2[1]) != emulsion_key(res[1]):
                 ck.fail(f"rule {rule}: result changes under intensities -> {a}*x+{b}", {**sig, "check": "threshold_affine", "rule": rule}, {**case, "a": a, "b": b})
+        # the threshold rule looks at the image only: settings meant for the refinement (intensity levels, tolerance) have no say in the
+        # detection - neither with refinement switched off (where they are documented to have no effect) nor, for the candidates, with it on
+        for rule in ("extrema", "auto", "mean", "otsu"):
+            plain = locate(field, threshold=rule, minimal_radius=-np.inf)
+            if plain[0] != "ok":
+                continue
+            for ra in ({"vmin": 0.0, "vmax": 1.0}, {"vmin": float(lo) - 0.4 * float(hi - lo), "vmax": float(hi) + 1.1 * float(hi - lo)}, {"vmin": None, "vmax": None, "tolerance": 1e-3}):
+                got = locate(field, threshold=rule, minimal_radius=-np.inf, refine=False, refine_args=dict(ra))
+                ck.count("rule_with_refine_args")
+                if got[0] != "ok" or emulsion_key(got[1]) != emulsion_key(plain[1]):
+                    ck.fail(f"rule {rule}: detection changes when refine_args={ra} is passed although refinement is off "
+                            f"({len(plain[1])} -> {len(got[1]) if got[0] == 'ok' else got[1]} droplets)", {**sig, "check": "locate_factors_through_mask", "rule": rule},
+                            {**case, "refine_args": {k_: (None if v_ is None else float(v_)) for k_, v_ in ra.items()}})
         # otsu affine (skipped on near-ties, decided after the driver answered) -> handled below
         # --- size filter
         base = locate(field, threshold="extrema", minimal_radius=-np.inf)
